@@ -57,14 +57,20 @@ def strategy(tier):
                 return case
             if kind == "dismax":
                 return dict(case, query={"op": "dismax", "qs": [case["query"], other], "tiebreak": 0.0})
+            if kind == "inter3":
+                # a nested intersection: three clauses over frequent terms
+                third = {"op": "term", "f": "t", "x": WORDS_BY_FREQUENCY[(len(extra) + 1) % len(WORDS_BY_FREQUENCY)], "boost": 1.0}
+                return dict(case, query={"op": "and", "qs": [case["query"], other, third], "boost": 1.0})
             return dict(case, query={"op": kind if kind != "inter" else "and", "a": case["query"], "b": other,
                                      "qs": [case["query"], other], "boost": 1.0})
         if case["kind"] != "direct":
             return case
+        if kind == "inter3":
+            kind = "inter"
         ids = sorted(set(extra) | set(leaf["ids"]))
         return dict(case, tree={"m": kind, "a": case["tree"], "b": dict(leaf, ids=ids)})
     base = st.one_of(base, base,
-                     st.builds(rooted, base, st.sampled_from(["andnot", "inter", "require", "andmaybe", "dismax", "union"]), c11.list_leaf_s(),
+                     st.builds(rooted, base, st.sampled_from(["andnot", "inter", "require", "andmaybe", "dismax", "union", "inter3", "inter3"]), c11.list_leaf_s(),
                                st.lists(st.integers(0, 30), max_size=8)))
     weighting = st.one_of(
         st.builds(lambda B, K1, tB: {"kind": "bm25f", "B": B, "K1": K1, "t_B": tB},
